@@ -1062,6 +1062,23 @@ pub fn scale(out_dir: &str, thorough: bool, seed: u64) -> i32 {
         let how_name = ["reserve", "insert", "push_str"][how];
         recs.push(json!({"k":"grow","start":how_name,"len":len,"add":add,"cap1":len,"cap2":s.capacity(),"dA":st.d_a,"dR":st.d_r}));
     }
+    // ---- the growth rule is integer arithmetic at every length: lengths around 2^23/1.5, 2^24/1.5, 2^24, 2^25 (where a
+    // detour through f32 / f64 mantissas, or a narrower integer, starts to round), in every residue class mod 4 and mod 3
+    for base in [5_592_405usize, 11_184_808, (1 << 24) - 2, (1 << 24) + (1 << 23) - 1, (1 << 25) + 1] {
+        for d in 0..(if thorough { 12 } else { 6 }) {
+            let len = base + d;
+            let mut s = LeanString::from("x".repeat(len).as_str());
+            let (add, how_name) = [(1usize, "push_str"), (1, "reserve"), (len / 2, "reserve"), (3, "insert")][d % 4];
+            let before = shim::begin_call(&[]);
+            match how_name {
+                "reserve" => s.reserve(add),
+                "insert" => s.insert_str(len / 2, "yyy"),
+                _ => s.push_str("z"),
+            }
+            let st = shim::end_call(before);
+            recs.push(json!({"k":"grow","start":how_name,"len":len,"add":add,"cap1":len,"cap2":s.capacity(),"dA":st.d_a,"dR":st.d_r}));
+        }
+    }
     // ---- cloning at length, from every kind of owner: a buffer already shared, a sole owner with an exact buffer, with
     // kilobytes of reserved room, with most of a long text cut off, after one amortised growth step
     for len in [17usize, 100, 4096, 65536, 1 << 20] {
